@@ -18,9 +18,10 @@ RULE = ("seeded streams: projection (single / stacked / paired, dyadic grid poin
         "2^-45..2^20 for the projection forms (straddling Line's 1e-8 threshold, which is also probed at, one ulp below "
         "and one ulp above), extreme direction lengths 2^-1060..2^-480 and 2^480..2^1020 at unit-size positions "
         "(proj_*_extreme), arbitrary non-dyadic double lines meeting up to rounding (oracle only), extreme scales in the "
-        "quick tier; plus oracle-only sweeps over ALL ordered pairs of lines through two distinct lattice points of "
-        "[-1,1]^3 (492 804 pairs) and [-2,2]^2 (360 000 pairs) in the thorough tier plus every 3rd pair of [-3,3]^2 "
-        "(1 843 968 of 5 531 904); every 23rd / 11th / 131st pair in the quick tier (counts in coverage.lattice_sweep_*); "
+        "quick tier; plus oracle-only sweeps, in BOTH tiers, over ALL ordered pairs of lines through two distinct lattice "
+        "points of [-1,1]^3 (492 804 pairs) and [-2,2]^2 (360 000 pairs); the larger 2-D box [-3,3]^2 (5 531 904 pairs) is "
+        "only SAMPLED: every 3rd pair in the thorough tier, every 131st in the quick tier - exhaustiveness is claimed for "
+        "the two small boxes only (counts and the `exhaustive` flag in coverage.lattice_sweep_*); "
         "non-trivial = the call returned; distinct by hash of inputs")
 TRUSTED = ["Coq 8.16.1 kernel, vm_compute for the correspondence evaluation",
            "axioms (Print Assumptions): ClassicalDedekindReals.sig_forall_dec, sig_not_dec, "
@@ -40,8 +41,9 @@ ASSUMPTIONS = ["the real-number projection theorem cannot see overflow / underfl
                "C18_line_accepts_any_nonzero_direction_refuted / known finding line_rejects_tiny_nonzero_direction",
                "theorems are about exact real arithmetic; binary64 rounding is covered only by the tolerance of the "
                "correspondence check on sampled inputs",
-               "the model is the code WITH fixes/C18-intersect-lines-sign-and-p0-on-line.diff and "
-               "fixes/C18-intersect-2d-lines-determinant-test.diff applied"]
+               "the model is the code of /repo including the repairs fcc1d6c (intersect_lines), 7dfe779 (intersect_2d_lines); "
+               "the power-of-two rescaling of 36e7d06 is not mirrored (identity over the reals, "
+               "C18_projection_ignores_direction_length)"]
 SHARD = 100
 EXTRA_COVERAGE = {}   # filled by the exhaustive sweeps (run_impl of the sweep cases); copied into the evidence by the driver
 IMPORTS = [("PW.model", "M_line"), ("PW.proofs", "P_vec"), ("PW.proofs", "P_plane_xsect"), ("PW.proofs", "P_line")]
@@ -458,11 +460,11 @@ def gen_cases(rng, n, tier):
             p0, q0, p1, q1 = _lattice_pair_2d(rng)
             cases.append({"kind": "isect2_lattice", "p0": p0, "q0": q0, "p1": p1, "q1": q1, "int": rng.random() < 0.15})
     if tier in ("quick", "thorough"):
-        # exhaustive sweeps over small lattice boxes (oracle only): all pairs in the thorough tier, every 23rd / 11th
-        # pair (offset drawn from the seed) in the quick tier
+        # exhaustive sweeps over small lattice boxes (oracle only), in both tiers
         # 2-D additionally a larger box, sampled: [-3,3]^2 is the smallest box in which np.linalg.solve's inexact LU
         # pivot showed on parallel lines (800 of its 5 531 904 pairs)
-        s3, s2, s2b = (1, 1, 3) if tier == "thorough" else (23, 11, 131)
+        # quick: the two small boxes are swept completely as well (about 15 s); only the large 2-D box is strided
+        s3, s2, s2b = (1, 1, 3) if tier == "thorough" else (1, 1, 131)
         cases.append({"kind": "sweep3_lattice_box", "dim": 3, "box": [-1, 1], "stride": s3, "offset": rng.randrange(s3)})
         cases.append({"kind": "sweep2_lattice_box", "dim": 2, "box": [-2, 2], "stride": s2, "offset": rng.randrange(s2)})
         cases.append({"kind": "sweep2_lattice_box3", "dim": 2, "box": [-3, 3], "stride": s2b, "offset": rng.randrange(s2b)})
@@ -727,6 +729,8 @@ KNOWN = {"tiny_line": "line_rejects_tiny_nonzero_direction"}
 def classify(c, o, failure, disagrees):
     """a listed finding only when EVERY failure of the case belongs to a listed class (site + input class):
     Line(...) raising ValueError for a non-zero direction with all components <= 1e-8"""
+    if disagrees:
+        return None      # a model / implementation disagreement is never a known finding (the model mirrors listed ones)
     fs = _failures(c, o)
     if not fs or any(t not in KNOWN for t, _ in fs):
         return None
